@@ -7,16 +7,18 @@ type stream = {
   search : Sexp.t -> emit:(Sexp.t -> unit) -> unit;
   describe : Sexp.t -> string * int;
   tags : Sexp.t -> Sexp.t -> string list;
+  strict : bool;   (* abort / timeout results are handed to `check` instead of being counted as inconclusive *)
 }
 
 let streams : (string * stream) list = [
-  ("C07", { gen = C07.gen; check = C07.check; search = C07.search; describe = C07.describe; tags = C07.tags });
-  ("C08", { gen = C08.gen; check = C08.check; search = C08.search; describe = C08.describe; tags = C08.tags });
-  ("C09", { gen = C09.gen; check = C09.check; search = C09.search; describe = C09.describe; tags = C09.tags });
-  ("C10", { gen = C10.gen; check = C10.check; search = C10.search; describe = C10.describe; tags = C10.tags });
-  ("C11", { gen = C11.gen; check = C11.check; search = C11.search; describe = C11.describe; tags = (fun _ _ -> []) });
-  ("C01", { gen = C01.gen; check = C01.check; search = C01.search; describe = C01.describe; tags = Evalcommon.tags });
-  ("C02", { gen = C02.gen; check = C02.check; search = C02.search; describe = C02.describe; tags = Evalcommon.tags });
+  ("C07", { gen = C07.gen; check = C07.check; search = C07.search; describe = C07.describe; tags = C07.tags; strict = false });
+  ("C08", { gen = C08.gen; check = C08.check; search = C08.search; describe = C08.describe; tags = C08.tags; strict = false });
+  ("C14", { gen = C14.gen; check = C14.check; search = C14.search; describe = C14.describe; tags = C14.tags; strict = true });
+  ("C09", { gen = C09.gen; check = C09.check; search = C09.search; describe = C09.describe; tags = C09.tags; strict = false });
+  ("C10", { gen = C10.gen; check = C10.check; search = C10.search; describe = C10.describe; tags = C10.tags; strict = false });
+  ("C11", { gen = C11.gen; check = C11.check; search = C11.search; describe = C11.describe; tags = (fun _ _ -> []); strict = false });
+  ("C01", { gen = C01.gen; check = C01.check; search = C01.search; describe = C01.describe; tags = Evalcommon.tags; strict = false });
+  ("C02", { gen = C02.gen; check = C02.check; search = C02.search; describe = C02.describe; tags = Evalcommon.tags; strict = false });
 ]
 
 let bump tbl k = Hashtbl.replace tbl k (1 + (try Hashtbl.find tbl k with Not_found -> 0))
@@ -64,7 +66,7 @@ let () =
               bump ops op;
               bump sizes (if sz <= 3 then "1-3" else if sz <= 6 then "4-6" else if sz <= 20 then "7-20" else if sz <= 60 then "21-60" else "61+");
               (match r with
-               | Sexp.L [ Sexp.A ("timeout" | "abort") ] -> incr inconclusive; bump ops ("inconclusive:" ^ Sexp.to_string r)
+               | Sexp.L [ Sexp.A ("timeout" | "abort") ] when not s.strict -> incr inconclusive; bump ops ("inconclusive:" ^ Sexp.to_string r)
                | _ ->
                  List.iter (bump tags) (try s.tags c r with _ -> []);
                  let (v, nt) = s.check c r in
